@@ -905,6 +905,11 @@ func ToInt(any any) (int, error) {
 	// This way of casting values to float64 is inefficient
 	// I have used this technique to avoid writing a long
 	// switch case only.
+	// a whole double prints with an exponent from 1e6 on, which Atoi
+	// rejects: it is converted as the number it is
+	if float, ok := any.(float64); ok && float == math.Trunc(float) && math.Abs(float) < 1<<63 {
+		return int(float), nil
+	}
 	number, err := strconv.Atoi(fmt.Sprintf("%v", any))
 	if err != nil {
 		return 0, err
